@@ -61,3 +61,55 @@ def o11_4_confirm(v, out):
     if out.get('_rc') != 0: return (False, 'native run failed: %s' % out.get('_stderr', '')[-300:])
     bad = out.get('pinned_table_on_disk') != 'true' or out.get('iterator_view') != 'a=1'
     return (bad, 'table %s pinned by a live iterator: still on disk %s, iterator reads [%s] (expected [a=1]); tables on disk %s' % (out.get('pinned_table'), out.get('pinned_table_on_disk'), out.get('iterator_view'), out.get('tables_on_disk')))
+
+
+def o11_9_release_inputs(mir, tier):
+    """CompactionManifest::release_inputs: the input version pinned for the compaction is handed to VersionSet::release_version exactly
+    once and the manifest keeps no reference to it afterwards (release_version unlinks a version only when the list and the caller hold
+    the last two references, O11.4: a reference kept in the manifest leaves the version listed for ever and its tables are never
+    reclaimed)."""
+    import time
+    from z3 import BoolVal
+    from ..exec import Exec, Enum, Ref
+    from ..ob import Result
+    from .. import lib
+    fn = mir.method('CompactionManifest', 'release_inputs')
+    res = Result('O11.9 a finished compaction gives up its input version', [fn.path], 'input version present / absent; release_version by contract (event)')
+    t0 = time.time()
+    iv = mir.field('CompactionManifest', 'maybe_input_version')
+    for present in (True, False):
+        S = lib.std_summaries(); P = S['$patterns']
+        lib.combinator_summaries(P)
+        def rel(se, env, pc, vs, v):
+            st = dict(env['$state']); st['released'] = st['released'] + [v]
+            return [(None, (), st)]
+        P[r'VersionSet::release_version'] = rel
+        def clone(se, env, pc, a):
+            st = dict(env['$state']); st['clones'] = st['clones'] + 1
+            x = a; n = 0
+            while isinstance(x, Ref) and not str(x.local).startswith('$version') and n < 8: x = se.deref(env, x); n += 1
+            return [(None, x, st)]
+        P[r'<Arc<.*> as Clone>::clone'] = clone; P[r'Arc::clone'] = clone
+        ex = Exec(mir, S, loop_bound=3)
+        cm = mir.mk_struct('CompactionManifest', maybe_input_version=Enum('Some', (Ref('$version'),)) if present else Enum('None'))
+        def k(ret, env, pc, present=present, ex=ex):
+            st = env['$state']; left = ex.deref(env, Ref('$cm'))[iv]
+            kept = isinstance(left, Enum) and left.tag == 'Some'
+            posts = [('after release_inputs the compaction manifest still holds its input version (an extra reference: release_version never unlinks the version, its table files are never reclaimed)', not kept),
+                     ('release_inputs does not hand the input version to release_version exactly once', len(st['released']) == (1 if present else 0))]
+            res.checked += len(posts); res.cases['input version %s' % ('present' if present else 'absent')] = 1
+            for label, ok in posts:
+                ex.record_formula(label, pc, BoolVal(not ok))
+                if not ok and not any(v['label'] == label for v in res.violations):
+                    res.violations.append({'label': label, 'replay': ['compaction_edit_files']})
+        ex.top(fn, [Ref('$cm'), {'abstract': True, '__ty': 'VersionSet'}], {'$state': {'released': [], 'clones': 0}, '$cm': cm, '$version': {'abstract': True, '__ty': 'Node<Version>'}}, [], k)
+        res.absorb(ex)
+    res.wall_s = time.time() - t0
+    if res.violations: res.status = 'violation'
+    return res
+
+
+def o11_9_confirm(v, out):
+    """Native: three overlapping tables at three levels are compacted manually; afterwards exactly the tables of the current version are on disk."""
+    if out.get('_rc') != 0: return (True, 'native run panicked / failed: %s' % out.get('_stderr', '')[-300:])
+    return (out.get('files_on_disk') != out.get('tables_after'), 'native: after the manual compaction the version holds %s table(s), the data directory %s' % (out.get('tables_after'), out.get('files_on_disk')))
